@@ -129,6 +129,7 @@ func runC03(c *Ctx) {
 	c.r0315(pk, fd)
 	c.r0317(pk, fd)
 	c.r0319(pk, fd)
+	c.r0320(pk, fd)
 	// an attribute wrongly marked boolean loses its value: the table check of C17, restricted to the attribute traits
 	// an attribute value that holds code decodes to the same value only if the code was minified as the browser reads it
 	c.alsoUnder(map[string]string{"R11.9": "R03.16"}, nil, func() { c.r119() })
@@ -1466,4 +1467,68 @@ func (c *Ctx) r0319(pk *packages.Package, fd *ast.FuncDecl) {
 		c.R.Check(good, rule, fmt.Sprintf("html.Minifier.Minify/tag case/omitSpace = true#%d only after a block-level tag", n), c.pos(as), "behind t.Traits&blockTag != 0", "the white space after this tag is declared redundant although the tag is not known to be block-level: the space that separates the text on both sides of an unrendered or inline element is lost (`a<template>x</template> b` → `…</template>b`)")
 	}
 	c.R.Floor(rule, "assignments omitSpace = true in the tag case", n, 2)
+}
+
+// R03.20: a document tag is not dropped in front of a comment that is kept.
+func (c *Ctx) r0320(pk *packages.Package, fd *ast.FuncDecl) {
+	const rule = "R03.20"
+	c.R.Rule(rule, "HTML §13.1.2.4: the start tags of html and body, and the end tags of html, head and body, may be omitted only where no comment follows (head's start tag: only in front of an element) — a comment that stays in the output is otherwise parsed into another element (`<body><!--c--><p>` → the comment becomes a child of head; `</body><!--d-->` → a child of the last paragraph). In html.(*Minifier).Minify the `break` that drops an html, head or body tag is, under the stipulation that comments are kept (o.KeepComments), reachable only through the false outcome of a test of the following token against html.CommentToken")
+	g := c.graph(pk, fd)
+	n := 0
+	ast.Inspect(fd.Body, func(x ast.Node) bool {
+		ifs, ok := x.(*ast.IfStmt)
+		if !ok || !strings.Contains(nospace(str(ifs.Cond)), "o.KeepDocumentTags") {
+			return true
+		}
+		// the break statements directly in the body of an `if !keepTag` (the drop)
+		ast.Inspect(ifs.Body, func(z ast.Node) bool {
+			inner, ok := z.(*ast.IfStmt)
+			if !ok || len(inner.Body.List) != 1 {
+				return true
+			}
+			br, ok := inner.Body.List[0].(*ast.BranchStmt)
+			if !ok || br.Tok != token.BREAK || !strings.Contains(nospace(str(inner.Cond)), "keepTag") {
+				return true
+			}
+			goal := g.NodeOf(br)
+			var head *flow.Node
+			if len(ifs.Body.List) > 0 {
+				head = g.NodeOf(ifs.Body.List[0])
+			}
+			if goal == nil || head == nil {
+				return true
+			}
+			n++
+			veto := func(q *flow.Node) bool {
+				if q.Kind != flow.KFalse || q.Of == nil || q.Of.Kind != flow.KCond {
+					return false
+				}
+				s := nospace(str(q.Of.Expr))
+				return strings.HasSuffix(s, ".TokenType==html.CommentToken") || strings.HasPrefix(s, "html.CommentToken==")
+			}
+			// the look-ahead may also be stored in the flag that the drop tests: keepTag = next.TokenType == html.CommentToken
+			vetoAssign := func(q *flow.Node) bool {
+				as, ok := q.Stmt.(*ast.AssignStmt)
+				if !ok || q.Kind != flow.KStmt || len(as.Lhs) != 1 || len(as.Rhs) != 1 {
+					return false
+				}
+				r := nospace(str(as.Rhs[0]))
+				return strings.Contains(r, ".TokenType==html.CommentToken") && strings.Contains(nospace(str(inner.Cond)), nospace(str(as.Lhs[0])))
+			}
+			p := g.Path(flow.Search{From: []*flow.Node{head}, IncludeFrom: true, Goal: func(q *flow.Node) bool { return q == goal },
+				Assume: map[string]bool{"o.KeepComments": true, "t.Hash == Colgroup": false}, Track: true, TrackFields: true,
+				Avoid: func(q *flow.Node) bool {
+					if veto(q) || vetoAssign(q) {
+						return true
+					}
+					a := q.Ast()
+					return a != nil && (a.Pos() < ifs.Pos() || a.End() > ifs.End())
+				}})
+			c.R.Check(p == nil, rule, fmt.Sprintf("html.Minifier.Minify/document tag dropped#%d only where no kept comment follows", n), c.pos(br), "with KeepComments the drop is behind a look-ahead for a comment",
+				"an html, head or body tag is dropped without looking whether a comment follows that will be written: the comment is parsed into a different element than in the input (`<body><!--c--><p>x` → the comment moves into head): "+pathStr(c, g, p))
+			return true
+		})
+		return true
+	})
+	c.R.Floor(rule, "drops of a document tag", n, 1)
 }
